@@ -116,6 +116,24 @@ class Ctx:
                             vals.add(v)
                     if len(vals) == 1 and None not in vals:
                         return vals.pop()
+        if r is None and self.assumptions and subj[0] == "call" and subj[1] in ("std::option::Option::and_then", "std::result::Result::and_then") and len(subj[2]) == 2 and _d < 4:
+            # x.and_then(f) is Some / Ok exactly when x is and f(payload of x) is
+            inner = self._assumed_ok(subj[2][0], _d)
+            if inner is False:
+                return False
+            if subj[2][1][0] == "closure" and self.level < 3:
+                cb = self.prog.body(subj[2][1][1])
+                if cb is not None:
+                    caps = {n: v for _, n, v in subj[2][1][2]}
+                    cc = Ctx(cb, params={2: ok_payload(subj[2][0])}, captures=caps, assumptions=self.assumptions)
+                    cc.level = self.level + 1
+                    cc = cc.settle()
+                    rt = cc.T.return_term()
+                    vals = set(cc._assumed_ok(a, _d + 1) for a in (rt[1] if rt[0] == "phi" else (rt,)))
+                    if vals == {False}:
+                        return False
+                    if vals == {True} and inner is True:
+                        return True
         if r is None and subj[0] == "call" and subj[1] == "std::option::Option::filter" and len(subj[2]) == 2 and subj[2][1][0] == "closure":
             # x.filter(p) is Some exactly when x is Some and p(x) holds
             inner = self._assumed_ok(subj[2][0])
